@@ -36,7 +36,17 @@ func (n *InfluxQLNode) Build(q *pipeline.InfluxQLNode) (ast.Node, error) {
 		}
 		args = append(args, q.Args...)
 	}
-	n.Pipe(q.Method, args...).
+	method := q.Method
+	if strings.ToLower(q.Method) == "holtwinters" && len(args) > 0 {
+		// Whether the fit data is included selects the method, it is not an argument of it.
+		if fit, ok := args[len(args)-1].(bool); ok {
+			args = args[:len(args)-1]
+			if fit {
+				method = "holtWintersWithFit"
+			}
+		}
+	}
+	n.PipeZeroValueOK(method, args...).
 		Dot("as", q.As).
 		DotIf("usePointTimes", q.PointTimes)
 	return n.prev, n.err
